@@ -128,3 +128,18 @@ def event_checks(cf, P, trace, step, sid, want=None):
             emit(["rec.status", "rec.rid", "rec.dmg", "rec.hdmg", "rec.arb", "rec.ledger_i", "rec.ledger_h"],
                  lambda: f"chk_recover {P} ({prec})%Z {t}%nat {trackers_expr(cf, step['rec_pre'], orac)} "
                          f"{trackers_expr(cf, step['rec_post'])}")
+
+
+REG_OBS = ["reg.status", "reg.rid", "reg.dmg", "reg.hdmg", "reg.arb", "reg.ledger_i", "reg.ledger_h", "reg.fresh"]
+
+
+def register_checks(cf, P, trace, sid):
+    """Events registered between two steps (Simulation.add_event / add_events) vs Sim.register."""
+    for reg in trace.get("registrations") or []:
+        if "post" not in reg:
+            continue
+        tags = [{"scn": sid, "t": reg["t"], "ob": o} for o in REG_OBS]
+        try:
+            cf.check(tags, f"chk_register {P} {trackers_expr(cf, reg['pre'])} {trackers_expr(cf, reg['post'])}")
+        except NonFinite as e:
+            cf.pre.append((tags[0], 4, str(e)))
